@@ -86,7 +86,11 @@ theorem afterLoop_err (now : Int) (spec document nowV : Val) (ss dfs : Fields) (
       generalize upsertIdv ss dfs c3 = ic at h hm
       split at h
       · cases h; exact hm
-      · cases h
+      · split at h
+        · cases h
+          simp only [markStored_docs, markStored_indexes, markStored_ttlIndexes]
+          exact hm
+        · cases h
 
 theorem update_many_fail (cfg : Cfg) (now : Int) (c c' : Coll) (f u : Val) (up : Bool) (e : Err)
     (hn : c.ttlIndexes = []) (hd : DK c.docs) (hg : GK c.docs)
